@@ -313,18 +313,33 @@ type c13Run struct {
 func c13Record(res int, bpm float64, cs []liveChunk) (out c13Run) {
 	out.stage = "record"
 	out.panic = try(func() {
-		drv := testdrv.New("verif")
-		ins, _ := drv.Ins()
-		outs, _ := drv.Outs()
-		in := &teeIn{In: ins[0]}
-		o := outs[0]
-		o.Open()
+		// testdrv's first time stamp is (virtual time slept) - (wall time that passed between New and Listen), truncated
+		// to ms: 500 µs of virtual time make it exact as long as that wall time stays below 400 µs. On a loaded machine
+		// it may not: such a start is thrown away and repeated (the wall clock is not part of the property).
+		var drv *testdrv.Driver
+		var in *teeIn
+		var o drivers.Out
 		var tr smf.Track
-		stop, err := tr.RecordFrom(in, smf.MetricTicks(res), bpm)
-		if err != nil {
-			panic("RecordFrom: " + err.Error())
+		var stop func()
+		for attempt := 0; ; attempt++ {
+			t0 := time.Now()
+			drv = testdrv.New("verif")
+			ins, _ := drv.Ins()
+			outs, _ := drv.Outs()
+			in = &teeIn{In: ins[0]}
+			o = outs[0]
+			o.Open()
+			tr = nil
+			var err error
+			stop, err = tr.RecordFrom(in, smf.MetricTicks(res), bpm)
+			if err != nil {
+				panic("RecordFrom: " + err.Error())
+			}
+			if time.Since(t0) < 400*time.Microsecond || attempt >= 50 {
+				break
+			}
+			stop()
 		}
-		// testdrv takes the wall clock in Listen: 500 µs of virtual time make the truncated first stamp exact
 		drv.Sleep(500 * time.Microsecond)
 		for _, c := range cs {
 			drv.Sleep(time.Duration(c.delta) * time.Millisecond)
